@@ -218,3 +218,192 @@ Section DHP_scan.
 End DHP_scan.
 Print Assumptions C03_dhp_scan_frees_unguarded_statement_refuted.
 Print Assumptions C03_dhp_scan_run_frees_unguarded_partial.
+
+(** ** the out-of-bounds flag of the model is never set (added later: discharges the hypothesis [oob] = false above)
+
+    [C03_dhp_oob_false]: in every configuration reachable by any sequence of thread choices, [oob] = false: no retired
+    cell was written outside its block and no pointer was pushed into a thread record without retired array, i.e. every
+    retired_array::push of the model (retire(), repush in stage 2 of smr::scan, the moves of smr::help_scan) finds
+    current_block_ != nullptr and current_cell_ < last().  Proof: the invariant of LV.Proofs.DhpConsInv carries one more
+    per-thread ghost field [vb_arr] ("the record I am attached to has a retired array", from the end of
+    retired_array::init in smr::alloc_thread_data to the test retired_.empty() in smr::free_thread_data, [jc_arr]) and the
+    field [jw_8 : oob g = false]; "not full" was already thread-local ([vb_full], [jr_rec]).  RB >= 4 is needed: after a
+    scan that frees nothing of a full array, extend() is called only because 0 < RB * blocks / 4.
+    The three theorems above then hold without the hypothesis on [oob]. *)
+Section DHP_oob.
+  Import Model.DhpLang Model.Dhp Proofs.DhpBase Proofs.DhpSeqThm Proofs.DhpHist Proofs.DhpProofsC03 Proofs.DhpConsThm.
+
+  Theorem C03_dhp_oob_false : forall fuel (c : cfg) ths conf,
+    (4 <= c_RB c)%nat -> c_old c = false -> c_oldtail c = false ->
+    Z.of_nat (List.length ths) + 3 < 2147483648 ->
+    Forall retire_attached ths ->
+    Conc.reach (init_cfg fuel c ths) conf ->
+    NoDup (flat_map (fun e => retired_ev (snd e)) (Conc.trace conf)) ->
+    oob (Conc.shared conf) = false.
+  Proof. exact dhp_oob_false. Qed.
+
+  Theorem C03_dhp_retired_conserved_nooob : forall fuel (c : cfg) ths conf,
+    (4 <= c_RB c)%nat -> c_old c = false -> c_oldtail c = false ->
+    Z.of_nat (List.length ths) + 3 < 2147483648 ->
+    Forall retire_attached ths ->
+    Conc.reach (init_cfg fuel c ths) conf ->
+    NoDup (flat_map (fun e => retired_ev (snd e)) (Conc.trace conf)) ->
+    forall p, In p (flat_map (fun e => retired_ev (snd e)) (Conc.trace conf)) ->
+      In p (disposed_of (Conc.trace conf)) \/
+      (exists r, on_tlist (Conc.shared conf) r /\ In p (seq_final c r (Conc.shared conf))) \/
+      (exists r, (r < List.length (recs (Conc.shared conf)))%nat /\ r_tid (grec (Conc.shared conf) r) <> 0%nat).
+  Proof. exact dhp_retired_conserved_nooob. Qed.
+
+  Theorem C03_dhp_retired_conserved_detached_nooob : forall fuel (c : cfg) ths conf,
+    (4 <= c_RB c)%nat -> c_old c = false -> c_oldtail c = false ->
+    Z.of_nat (List.length ths) + 3 < 2147483648 ->
+    Forall retire_attached ths ->
+    Conc.reach (init_cfg fuel c ths) conf ->
+    NoDup (flat_map (fun e => retired_ev (snd e)) (Conc.trace conf)) ->
+    (forall r, (r < List.length (recs (Conc.shared conf)))%nat -> r_tid (grec (Conc.shared conf) r) = 0%nat) ->
+    forall p, In p (flat_map (fun e => retired_ev (snd e)) (Conc.trace conf)) ->
+      In p (disposed_of (Conc.trace conf)) \/
+      (exists r, on_tlist (Conc.shared conf) r /\ In p (seq_final c r (Conc.shared conf))).
+  Proof. exact dhp_retired_conserved_detached_nooob. Qed.
+
+  (** every retired object is disposed exactly once, no later than destruction of the singleton -- no side condition on
+      the model's out-of-bounds flag any more *)
+  Theorem C03_dhp_destroy_disposes_all_detached_nooob : forall fuel (c : cfg) ths conf,
+    (4 <= c_RB c)%nat -> c_old c = false -> c_oldtail c = false ->
+    Z.of_nat (List.length ths) + 3 < 2147483648 ->
+    Forall retire_attached ths ->
+    Conc.reach (init_cfg fuel c ths) conf ->
+    NoDup (flat_map (fun e => retired_ev (snd e)) (Conc.trace conf)) ->
+    (forall r, (r < List.length (recs (Conc.shared conf)))%nat -> r_tid (grec (Conc.shared conf) r) = 0%nat) ->
+    forall fuel2 d, d = Conc.run fuel2 0 [] (Conc.Cfg (Conc.shared conf)
+                          [compile fuel2 (DAct a_begin (fun _ => to_unit (destruct c (S (List.length ths)))))] []) ->
+    snd d = true -> ~ In (EvCli "outoffuel" []) (map snd (Conc.trace (fst d))) ->
+    Permutation (disposed_of (Conc.trace conf) ++ disposed_of (Conc.trace (fst d)))
+                (flat_map (fun e => retired_ev (snd e)) (Conc.trace conf)).
+  Proof. exact DhpConsDThm.dhp_destroy_disposes_all_detached_nooob. Qed.
+
+  (** non-vacuity: block size 4; thread 1 guards objects 1..5; thread 0 retires 1..9: the 4th push fills the only block,
+      the scan frees nothing (4 guarded), so extend() is called; the 8th push fills the second block, the scan frees 3
+      (6, 7, 8) of 8 and compacts; every hypothesis holds of the final configuration, the flag is not set, and two blocks
+      were needed *)
+  Example C03_dhp_oob_nonvacuous :
+    let c := mkCfg 8 2 4 false 400 1 false in
+    let ths := map decode_ops
+                 [[[1]; [15;0;1]; [11;1;9]];
+                  [[1]; [12;0;1;5]; [8;0;1]]] in
+    let conf := fst (Conc.run 20000 0 [] (init_cfg 20000 c ths)) in
+    (4 <= c_RB c)%nat /\ c_old c = false /\ c_oldtail c = false /\ Z.of_nat (List.length ths) + 3 < 2147483648 /\
+    Forall retire_attached ths /\ Conc.reach (init_cfg 20000 c ths) conf /\
+    flat_map (fun e => retired_ev (snd e)) (Conc.trace conf) = [1;2;3;4;5;6;7;8;9]%nat /\
+    oob (Conc.shared conf) = false /\ disposed_of (Conc.trace conf) = [6;7;8]%nat /\
+    r_bcount (grec (Conc.shared conf) 0) = 2%nat.
+  Proof.
+    cbv zeta. split; [vm_compute; auto|]. split; [reflexivity|]. split; [reflexivity|]. split; [vm_compute; reflexivity|].
+    split; [repeat constructor; vm_compute; auto|]. split; [apply Conc.run_reach|]. repeat split; vm_compute; reflexivity.
+  Qed.
+End DHP_oob.
+Print Assumptions C03_dhp_oob_false.
+Print Assumptions C03_dhp_retired_conserved_nooob.
+Print Assumptions C03_dhp_retired_conserved_detached_nooob.
+Print Assumptions C03_dhp_destroy_disposes_all_detached_nooob.
+
+(** ** towards the corrected statement [C03_dhp_scan_frees_unguarded_att_statement]: the ownership half, for every schedule
+
+    [C03_dhp_scan_begins_with_own_retired]: in the configuration right after the step in which a thread t emits
+    "_scanb r" (the begin of smr::scan( r ): retire() on a full array, DHP::scan(), the scans of detach / help_scan), every
+    object that t has handed to retire() since its last "_att" event -- which was for this record r -- and that has not
+    been disposed is below the cursor of the retired array of r ([seq_final c r g]): exactly the cells stage 2 of this
+    scan goes through.  In particular none of them was lost, none sits in another record, none was moved away by a
+    help_scan of another thread.  (History invariant [jh_mine] of LV.Proofs.DhpConsInv over the trace functions of
+    LV.Proofs.DhpConsSTrace: per-thread ghost fields [vb_mine], [vb_s0].)
+    Still missing for [C03_dhp_scan_frees_unguarded_att_statement]: the hazard half -- "a value the scan loaded from a
+    cell was the content of that cell at that instant" needs the C02 invariant [ja_slot] (slot_get g s = slotv (hist tr) s,
+    LV.Proofs.DhpInvA) inside the C03 proof, i.e. the C03 thread proofs restated as [rdsafe] (LV.Proofs.DhpLiveGcRule)
+    over InvA, a ghost copy of the collected list with "every element was held by some cell at some instant since
+    _scanb", and the step from stage 2 to the disposer calls. *)
+From LV Require Proofs.DhpConsSTrace.
+Section DHP_own.
+  Import Model.DhpLang Model.Dhp Proofs.DhpBase Proofs.DhpSeqThm Proofs.DhpHist Proofs.DhpProofsC03 Proofs.DhpConsThm.
+
+  Theorem C03_dhp_scan_begins_with_own_retired : forall fuel (c : cfg) ths conf,
+    (4 <= c_RB c)%nat -> c_old c = false -> c_oldtail c = false ->
+    Z.of_nat (List.length ths) + 3 < 2147483648 ->
+    Forall retire_attached ths ->
+    Conc.reach (init_cfg fuel c ths) conf ->
+    NoDup (flat_map (fun e => retired_ev (snd e)) (Conc.trace conf)) ->
+    forall tr0 tr1 t r,
+      Conc.trace conf = (tr0 ++ (t, ev_att r) :: tr1 ++ [(t, ev_scanb r)])%list ->
+      (forall e, In e tr1 -> fst e = t -> forall r', classify (snd e) <> HAtt r') ->
+      forall p, In p (flat_map (fun e => if Nat.eqb (fst e) t then retired_ev (snd e) else []) tr1) ->
+      ~ In p (disposed_of (Conc.trace conf)) ->
+      In p (seq_final c r (Conc.shared conf)).
+  Proof. exact dhp_scan_begins_with_own_retired. Qed.
+
+  (** non-vacuity: thread 1 guards 5; thread 0 attaches (record 0), retires 5 and 6 and calls DHP::scan(); after 26 steps
+      of the round-robin schedule the last event is "_scanb 0" of thread 0: both objects are in the array of record 0 *)
+  Example C03_dhp_scan_begins_nonvacuous :
+    let c := mkCfg 4 2 4 false 200 1 false in
+    let ths := map decode_ops
+                 [[[1]; [15;0;1]; [9;5]; [9;6]; [10]];
+                  [[1]; [3;0]; [5;0;5]; [8;0;1]]] in
+    let conf := fst (Conc.run 26 0 [] (init_cfg 5000 c ths)) in
+    let tr0 := firstn 18 (Conc.trace conf) in
+    let tr1 := firstn 30 (skipn 19 (Conc.trace conf)) in
+    Forall retire_attached ths /\ Conc.reach (init_cfg 5000 c ths) conf /\
+    Conc.trace conf = (tr0 ++ (0%nat, ev_att 0) :: tr1 ++ [(0%nat, ev_scanb 0)])%list /\
+    forallb (fun e => match classify (snd e) with HAtt _ => negb (Nat.eqb (fst e) 0) | _ => true end) tr1 = true /\
+    flat_map (fun e => if Nat.eqb (fst e) 0 then retired_ev (snd e) else []) tr1 = [5%nat; 6%nat] /\
+    disposed_of (Conc.trace conf) = [] /\ seq_final c 0 (Conc.shared conf) = [5%nat; 6%nat].
+  Proof.
+    cbv zeta. split; [repeat constructor; vm_compute; auto|]. split; [apply Conc.run_reach|].
+    split; [vm_compute; reflexivity|]. split; [vm_compute; reflexivity|]. split; [vm_compute; reflexivity|].
+    split; vm_compute; reflexivity.
+  Qed.
+End DHP_own.
+Print Assumptions C03_dhp_scan_begins_with_own_retired.
+
+(** ** ... and composed with the interference-free scan: the corrected statement with "the scan runs without interference"
+       in place of "no cell holds p at any moment of the scan"
+
+    [C03_dhp_scan_run_frees_own_unguarded_partial]: ANY schedule up to the step in which thread t emits "_scanb r"; if a
+    whole smr::scan( r ) runs from the memory of that configuration without interference (big-step evaluation [dexec],
+    no loop out of fuel), it hands to the disposer every object that t handed to retire() since its last "_att" event,
+    that is not yet disposed and that no hazard cell holds at that moment.  This is
+    [C03_dhp_scan_frees_unguarded_att_statement] with the interleaving during the scan removed; the hypotheses of
+    [C03_dhp_scan_run_frees_unguarded_partial] on the memory (well-formed array, the object is below the cursor) are
+    discharged from reachability. *)
+From LV Require Proofs.DhpConsSOwn.
+Section DHP_own_run.
+  Import Model.DhpLang Model.Dhp Proofs.DhpBase Proofs.DhpSeqThm Proofs.DhpHist Proofs.DhpProofsC03 Proofs.DhpConsThm.
+
+  Theorem C03_dhp_scan_run_frees_own_unguarded_partial : forall fuel (c : cfg) ths conf,
+    (4 <= c_RB c)%nat -> c_old c = false -> c_oldtail c = false ->
+    Z.of_nat (List.length ths) + 3 < 2147483648 ->
+    Forall retire_attached ths ->
+    Conc.reach (init_cfg fuel c ths) conf ->
+    NoDup (flat_map (fun e => retired_ev (snd e)) (Conc.trace conf)) ->
+    forall tr0 tr1 t r,
+      Conc.trace conf = (tr0 ++ (t, ev_att r) :: tr1 ++ [(t, ev_scanb r)])%list ->
+      (forall e, In e tr1 -> fst e = t -> forall r', classify (snd e) <> HAtt r') ->
+      ~ In (EvCli "outoffuel" []) (snd (fst (DhpConsDestroy.dexec (Dhp.scan c r) (Conc.shared conf)))) ->
+      forall p, In p (flat_map (fun e => if Nat.eqb (fst e) t then retired_ev (snd e) else []) tr1) ->
+      ~ In p (disposed_of (Conc.trace conf)) ->
+      (forall s, slot_get (Conc.shared conf) s <> p) ->
+      In p (flat_map DhpInvB.disposed_ev (snd (fst (DhpConsDestroy.dexec (Dhp.scan c r) (Conc.shared conf))))).
+  Proof. exact DhpConsSOwn.dhp_scan_run_frees_own_unguarded. Qed.
+
+  (** non-vacuity: the configuration of [C03_dhp_scan_begins_nonvacuous]: 5 is guarded by thread 1, 6 by nobody; the scan
+      run from there does not run out of fuel and frees 6 only *)
+  Example C03_dhp_scan_run_own_nonvacuous :
+    let c := mkCfg 4 2 4 false 200 1 false in
+    let ths := map decode_ops
+                 [[[1]; [15;0;1]; [9;5]; [9;6]; [10]];
+                  [[1]; [3;0]; [5;0;5]; [8;0;1]]] in
+    let conf := fst (Conc.run 26 0 [] (init_cfg 5000 c ths)) in
+    forallb (fun e => match e with EvCli n [] => negb (String.eqb n "outoffuel") | _ => true end)
+            (snd (fst (DhpConsDestroy.dexec (Dhp.scan c 0) (Conc.shared conf)))) = true /\
+    flat_map DhpInvB.disposed_ev (snd (fst (DhpConsDestroy.dexec (Dhp.scan c 0) (Conc.shared conf)))) = [6%nat] /\
+    slot_get (Conc.shared conf) (GI 1 0) = 5%nat.
+  Proof. cbv zeta. split; [vm_compute; reflexivity|]. split; vm_compute; reflexivity. Qed.
+End DHP_own_run.
+Print Assumptions C03_dhp_scan_run_frees_own_unguarded_partial.
